@@ -114,6 +114,7 @@ def snapshot(pr):
         "cell_surfs": {c.number: sorted(s.number for s in c.surfaces) for c in pr.cells},
         "ptrs": {s.number: (s.periodic_surface.number if s.periodic_surface is not None else 0,
                             s.transform.number if s.transform is not None else 0) for s in pr.surfaces},
+        "bc": {s.number: (bool(s.is_reflecting), bool(s.is_white_boundary)) for s in pr.surfaces},
         "unique": len({s.number for s in pr.surfaces}) == len(list(pr.surfaces)),
         "class_ok": all(class_consistent(s) for s in pr.surfaces),
         "int_dividers": any(has_int_divider(c.geometry) for c in pr.cells),
@@ -257,6 +258,10 @@ def apply_pre(pr, pre):
             pr.surfaces[op[1]].periodic_surface = pr.surfaces[op[2]]
         elif k == "del_per":
             del pr.surfaces[op[1]].periodic_surface
+        elif k == "set_refl":
+            pr.surfaces[op[1]].is_reflecting = bool(op[2])
+        elif k == "set_white":
+            pr.surfaces[op[1]].is_white_boundary = bool(op[2])
         elif k == "geom_and":
             s = pr.surfaces[op[2]]
             pr.cells[op[1]].geometry &= (+s if op[3] else -s)
@@ -332,6 +337,14 @@ def tr_same(ta, tb, tol):
     return all(_within(x, y, tol) for x, y in zip(ra, rb))
 
 
+def bc_of(sv):
+    """(reflecting, white) of a surface view: the live flags when the oracle was given them (a flag set through the
+    API shows on the card only once the surface is written), else what the card's marker says"""
+    if "live_bc" in sv:
+        return sv["live_bc"]
+    return (sv["modifier"] == "*", sv["modifier"] == "+")
+
+
 def per_tr(sv):
     """(periodic partner | 0, transform number | 0) of a surface view: the live pointers when the oracle was given
     them (an object can have both; a card shows one), else what the card's pointer says"""
@@ -346,7 +359,7 @@ def true_duplicate(sa, sb, trs, tol):
     why = []
     if sa["mnemonic"] != sb["mnemonic"]:
         why.append("type")
-    if sa["modifier"] != sb["modifier"]:
+    if bc_of(sa) != bc_of(sb):
         why.append("boundary-condition")
     if per_tr(sa)[0] or per_tr(sb)[0]:
         why.append("periodic")
@@ -423,6 +436,8 @@ def oracle(case, before_text, before, after_text, after, mmap, tol):
         if n in before["ptrs"]:
             per, tr = before["ptrs"][n]
             sv["live"] = (per, tr)
+        if n in before.get("bc", {}):
+            sv["live_bc"] = tuple(before["bc"][n])
             sv["pointer"] = -per if per else (tr if tr else None)
     ren = dict(mmap or [])
     removed = [n for n in before["surfs"] if n not in after["surfs"]]
@@ -457,6 +472,8 @@ def oracle(case, before_text, before, after_text, after, mmap, tol):
             pb, pa = before["ptrs"][n], after["ptrs"][n]
             if not (pb[1] == pa[1] and ren.get(pb[0]) == pa[0]):
                 fails.append(("survivor-pointer-changed", {"surface": n, "before(per,tr)": pb, "after(per,tr)": pa}))
+        if n in before.get("bc", {}) and tuple(before["bc"][n]) != tuple(after["bc"][n]):
+            fails.append(("survivor-boundary-changed", {"surface": n, "before": before["bc"][n], "after": after["bc"][n]}))
         if after["ptrs"][n][0] and after["ptrs"][n][0] not in after["surfs"]:
             fails.append(("dangling-periodic", {"surface": n, "periodic": after["ptrs"][n][0]}))
     surv_order = [n for n in before["surfs"] if n in after["surfs"]]
@@ -493,7 +510,9 @@ def oracle(case, before_text, before, after_text, after, mmap, tol):
             same_ptr = pa == pb or (pb is not None and pb < 0 and pa is not None and ren.get(-pb) == -pa)
             if any(p[0] in ("set_tr", "del_tr", "set_per", "del_per") for p in case.get("pre", [])):
                 same_ptr = True     # how an edited pointer is written is the writer's business; (3) looked at the objects
-            if (sa["mnemonic"], sa["modifier"]) != (sb["mnemonic"], sb["modifier"]) or not same_ptr \
+            rb, wb = bc_of(sb)
+            want_mod = "*" if rb else "+" if wb else ""          # a card shows one marker; reflecting wins
+            if (sa["mnemonic"], sa["modifier"] or "") != (sb["mnemonic"], want_mod) or not same_ptr \
                     or sa["values"] != sb["values"]:
                 fails.append(("file-survivor-changed", {"surface": n,
                                                         "before": [sb["modifier"], sb["pointer"], sb["mnemonic"]],
@@ -754,9 +773,19 @@ def gen_case(rng, opts=None):
         if s["mn"][0] == "c" and s["consts"][-1] <= 0:
             s["consts"][-1] = 1.0          # a cylinder needs a radius
     rng.shuffle(surfs)
-    nums = rng.sample(range(1, 60), len(surfs))
-    if rng.random() < 0.5:
-        nums.sort()
+    r = rng.random()
+    if r < 0.2:
+        # compact numbers in an order unrelated to the list position (a slice of a numbered collection selects by
+        # NUMBER): low numbers late in the block, high numbers early
+        nums = rng.sample(range(1, len(surfs) + 1 + rng.choice([0, 0, 2, 5])), len(surfs))
+        if rng.random() < 0.3:
+            nums.sort(reverse=True)
+    else:
+        nums = rng.sample(range(1, 60), len(surfs))
+        if r < 0.55:
+            nums.sort()
+        elif r < 0.65:
+            nums.sort(reverse=True)
     planes = [n for n, s in zip(nums, surfs) if s["mn"] in ("px", "py", "pz")]
     for n, s in zip(nums, surfs):
         s["num"] = n
@@ -832,12 +861,20 @@ def gen_case(rng, opts=None):
                 pers = [s["num"] for s in surfs if s["per"]]
                 if pers:
                     pre.append(["del_per", rng.choice(pers)])
+            elif r < 0.86:
+                fam = [x["num"] for x in surfs if x["mn"] in ARITY]
+                pre.append([rng.choice(["set_refl", "set_white"]), rng.choice(fam or nums), rng.random() < 0.8])
             elif r < 0.92:
                 pre.append([rng.choice(["geom_and", "geom_or"]), rng.choice(cnums), rng.choice(nums), rng.random() < 0.5])
             elif r < 0.96:
                 pre.append(["write"])
             elif trnums:
                 pre.append(["renum_tr", rng.choice(trnums), rng.choice(range(40, 50))])
+    if o["pre"] and not two_stage and not pre and rng.random() < 0.1:
+        # nothing but boundary flags set through the API between the read and the call (no write in between)
+        fam = [x["num"] for x in surfs if x["mn"] in ARITY]
+        for n in rng.sample(fam, min(len(fam), rng.choice([1, 1, 2, 3]))):
+            pre.append([rng.choice(["set_refl", "set_white"]), n, rng.random() < 0.85])
     if two_stage:
         nb = [x["num"] for x in surfs if x.get("stage") == "B"][0]
         pre = [[rng.choice(["geom_and", "geom_or"]), rng.choice(cnums), nb, rng.random() < 0.5],
